@@ -93,8 +93,8 @@ def rewrites(derive, it):
                 hit = True
         if hit:
             yield "skip-ignore", n, "exact"
-    # bound / bounds / where
-    for target in ("bound", "bounds", "where"):
+    # bound / bounds (the `where(..)` spelling of fmt/mod.rs:32 is in no impl/doc/*.md: not part of the property)
+    for target in ("bound", "bounds"):
         n = clone(it)
         hit = False
         for pos, k, a in _each(derive, n):
@@ -223,7 +223,9 @@ def _positions(derive, it):
 
 def corruptions(derive, it, rng):
     """yield dict(kind, detail, item, removed): `removed` = the corrupted item without the offending
-    attribute (for the silently-ignored test); every corruption is expected to be rejected."""
+    attribute (for the silently-ignored test); every corruption is expected to be rejected, except the
+    kind `regression-bound-kept` (formerly silently ignored, repaired by 12fe071/aea87eb): it has to be
+    accepted AND the added predicate `T: Clone` has to reach the where clause."""
     name = ATTR_OF[derive]
     poss = _positions(derive, it)
     some = rng.sample(poss, min(2, len(poss)))
@@ -390,18 +392,18 @@ def corruptions(derive, it, rng):
         b = A(name, "bounds", "bound", ["T: Clone"], False)
         if it["kind"] == "struct":
             if not any(_own(derive, a) and a["t"][0] == "fmt" for a in it["attrs"]) and len(it["fields"]) <= 1:
-                yield out("meaningless", "bound-without-literal", _append(it, ("item",), b), it)
+                yield out("regression-bound-kept", "bound-without-literal", _append(it, ("item",), b), it)
             if it["fields"] and not any(_own(derive, a) and a["t"][0] == "rename" for a in it["attrs"]):
                 yield out("meaningless", "rename_all-on-nonunit", _append(it, ("item",), A(name, "rename", "lowercase")), it)
         else:
             if not any(_own(derive, a) and a["t"][0] == "bounds" for a in it["attrs"]):
-                yield out("meaningless", "bound-on-enum", _append(it, ("item",), b), it)
+                yield out("regression-bound-kept", "bound-on-enum", _append(it, ("item",), b), it)
             for j, v in enumerate(it["variants"]):
                 has_fmt = any(_own(derive, a) and a["t"][0] == "fmt" for a in v["attrs"])
                 has_ren = any(_own(derive, a) and a["t"][0] == "rename" for a in v["attrs"])
                 has_b = any(_own(derive, a) and a["t"][0] == "bounds" for a in v["attrs"])
                 if not has_fmt and not has_b and len(v["fields"]) == 1:
-                    yield out("meaningless", "bound-without-literal", _append(it, ("variant", j), b), it)
+                    yield out("regression-bound-kept", "bound-without-literal", _append(it, ("variant", j), b), it)
                     break
             for j, v in enumerate(it["variants"]):
                 has_ren = any(_own(derive, a) and a["t"][0] == "rename" for a in v["attrs"])
